@@ -87,6 +87,13 @@ def check_ckd(case, ctx):
     else:
         node = Pub(key=rp.sec(), **kw) if case["form"] != "parsed" else \
             Pub.parse(rp.xpub(versions(p["testnet"])[1]), testnet=p["testnet"])
+    if side == "pub" and p["k"] % 3:
+        # the parent with the NEGATED public key (same x, other parity) is used first in this process
+        neg = R.Node.from_priv(N - p["k"], p["c"], p["depth"], p["index"], p["pfp"])
+        tw = Pub(key=neg.sec(), **kw)
+        call(tw.ckd, 0)
+        call(lambda: tw.public_key.sec())
+        ctx.count("negated-parent-used-first")
     stub = patch.ScriptedPRF({j: out for j in range(6)})
     with patch.prf(stub):
         st_, child = call(node.ckd, i)
